@@ -40,7 +40,7 @@ pub struct Gen {
 
 // U+17D8 is the one character unicode-width 0.2 reports as 3 columns wide
 const WIDE: &[u32] = &[0x4E00, 0x3042, 0xFF21, 0x1F600, 0xAC00, 0x4E8C, 0x17D8];
-const ZERO: &[u32] = &[0x0301, 0x0308, 0x20DD, 0x200B, 0x200D, 0xFE0F, 0x0483, 0xE0100];
+const ZERO: &[u32] = &[0x0301, 0x0308, 0x20DD, 0x200B, 0x200D, 0xFE0F, 0x0483, 0xE0100, 0xFEFF, 0x2060];
 const ODD: &[u32] = &[0x2E3B, 0x2E3B, 0x00AD, 0x0378, 0xE000, 0x10FFFF, 0x00A0, 0x00FF, 0x0100, 0x2028, 0x1160, 0xFFFC];
 
 fn push_char(out: &mut Vec<u8>, cp: u32) {
